@@ -14,7 +14,7 @@ BUGS = ["nocritical", "flagfirst", "nolock", "noreduce", "noiolock", "sharedacc"
 ACTIONS = ["ReadFlag", "EnterCritical", "RecheckFlag", "Fill1", "Fill2", "SetFlag", "LeaveCritical", "UseTable", "Take", "Seek", "ReadIO",
            "LockLookup", "Find", "Compute", "LockInsert", "Count", "Insert", "Accumulate", "Reduce"]
 # several calls on the same objects with a changing number of active threads (StartCall): quick / thorough configurations
-CALLS = {True: ["MC_Threads_calls", "MC_Threads_calls3"], False: ["MC_Threads_calls_thorough", "MC_Threads_calls3"]}
+CALLS = {True: ["MC_Threads_calls3"], False: ["MC_Threads_calls_thorough", "MC_Threads_calls3"]}
 MORE = {True: [], False: ["MC_Threads_thorough4"]}      # 4 threads
 WORKLOADS = ["lazy", "rows", "proj", "ll", "lm", "scat", "io"]
 
@@ -48,28 +48,34 @@ def run(ctx):
     cfg = "MC_Threads" if q else "MC_Threads_thorough"
     r = lib.tlc("MC_Threads", cfg=cfg, workers=4 if q else 8, timeout=1500, heap="6g", coverage=True, deadlock=True)
     ctx.mc_must_pass(r, "all interleavings, safety + deadlock freedom (%s)" % cfg, "MC_Threads")
-    for a in ACTIONS:
-        if r.coverage.get(a, (0, 0))[1] == 0:
-            raise lib.ModelFailure("MC_Threads: action %s never taken (vacuous model check)" % a)
-    for cc in MORE[q]:
-        rm_ = lib.tlc("MC_Threads", cfg=cc, workers=8, timeout=1500, heap="6g", deadlock=True)
-        ctx.mc_must_pass(rm_, "all interleavings, safety + deadlock freedom (%s)" % cc, "MC_Threads")
-    for cc in CALLS[q]:
-        rc_ = lib.tlc("MC_Threads", cfg=cc, workers=4 if q else 8, timeout=1500, heap="6g", coverage=True, deadlock=True)
-        ctx.mc_must_pass(rc_, "repeated calls with changing thread counts: result = items of this call only (%s)" % cc, "MC_Threads")
-        if rc_.coverage.get("StartCall", (0, 0))[1] == 0:
-            raise lib.ModelFailure("MC_Threads (%s): StartCall never taken (vacuous model check)" % cc)
-    live = "MC_Threads_live" if q else "MC_Threads_live_thorough"
-    rl = lib.tlc("MC_Threads", cfg=live, workers=4 if q else 8, timeout=1500, heap="6g", deadlock=True)
-    ctx.mc_must_pass(rl, "termination under weak fairness (%s, FairSpec)" % live, "MC_Threads")
+    cov = dict(r.coverage)
+    # the small configurations run side by side (1-2 workers each)
+    import concurrent.futures as cf
+    jobs = [(cc, "all interleavings, safety + deadlock freedom (%s)" % cc, True) for cc in MORE[q]]
+    jobs += [(cc, "repeated calls with changing thread counts: result = items of this call only (%s)" % cc, True) for cc in CALLS[q]]
+    jobs += [("MC_Threads_live" if q else "MC_Threads_live_thorough", "termination under weak fairness (FairSpec)", True)]
     if not q:
-        rl2 = lib.tlc("MC_Threads", cfg="MC_Threads_live_calls_thorough", workers=8, timeout=1500, heap="6g", deadlock=True)
-        ctx.mc_must_pass(rl2, "termination under weak fairness, repeated calls (MC_Threads_live_calls_thorough, FairSpec)", "MC_Threads")
-    for b in BUGS:
-        rb = lib.tlc("MC_Threads", cfg="MC_Threads_bug_" + b, workers=2, timeout=600, heap="4g", deadlock=True)
-        if not rb.violation:
-            raise lib.ModelFailure("MC_Threads with protection '%s' removed does not violate any invariant: the model is vacuous" % b)
-        ctx.notes.append("model with bug '%s' violates %s (as it must)" % (b, ",".join(re.findall(r"Invariant (\w+) is violated", rb.out))))
+        jobs += [("MC_Threads_live_calls_thorough", "termination under weak fairness, repeated calls (FairSpec)", True)]
+    jobs += [("MC_Threads_bug_" + b, b, False) for b in BUGS]
+
+    def one(job):
+        cc, what, must_pass = job
+        return job, lib.tlc("MC_Threads", cfg=cc, workers=1 if q else 2, timeout=1500, heap="3g", coverage=must_pass, deadlock=True)
+    with cf.ThreadPoolExecutor(4) as ex:
+        results = list(ex.map(one, jobs))
+    for (cc, what, must_pass), rr in results:
+        if must_pass:
+            ctx.mc_must_pass(rr, what + " [" + cc + "]", "MC_Threads")
+            for a, v in rr.coverage.items():
+                if a not in cov or cov[a][1] == 0:
+                    cov[a] = v
+        else:
+            if not rr.violation:
+                raise lib.ModelFailure("MC_Threads with protection '%s' removed does not violate any invariant: the model is vacuous" % what)
+            ctx.notes.append("model with bug '%s' violates %s (as it must)" % (what, ",".join(re.findall(r"Invariant (\w+) is violated", rr.out))))
+    for a in ACTIONS + ["StartCall"]:
+        if cov.get(a, (0, 0))[1] == 0:
+            raise lib.ModelFailure("MC_Threads: action %s never taken (vacuous model check)" % a)
     lib.log("C18: model checks done at %.0fs" % (time.time() - ctx.t0))
     # ---------------------------------------------------------------- 2. record
     env = {"VERIF_SEED": str(ctx.seed), "OMP_WAIT_POLICY": "passive", "GOMP_SPINCOUNT": "0", "OMP_DYNAMIC": "false", "OMP_NUM_THREADS": "4"}
@@ -80,7 +86,7 @@ def run(ctx):
         scratch = os.path.join(ctx.work, "scratch")
         os.makedirs(scratch, exist_ok=True)
         # (name, instances per workload, repetitions per thread count, size class, seed offset)
-        plan = [("q", 3, 2, 0, 0)] if q else [("t0", 5, 3, 0, 0), ("t1", 2, 2, 1, 500), ("t2", 5, 3, 0, 900)]
+        plan = [("q", 2, 2, 0, 0)] if q else [("t0", 5, 3, 0, 0), ("t1", 2, 2, 1, 500), ("t2", 5, 3, 0, 900)]
         traces = []
         for (name, ninst, reps, size, off) in plan:
             t = os.path.join(ctx.work, name + ".ndjson")
